@@ -69,6 +69,7 @@ mutual
     | .list [.atom "exit", n] => do pure (.exit (some (← n.nat?)))
     | .list [.atom "sete", n] => do pure (.setE ((← n.nat?) != 0))
     | .list [.atom "setm", n] => do pure (.setM ((← n.nat?) != 0))
+    | .list [.atom "setpf", n] => do pure (.setP ((← n.nat?) != 0))
     | .list [.atom "call", n] => do pure (.call (← toName n) 0)
     | .list [.atom "call", n, k] => do pure (.call (← toName n) (← k.nat?))
     | .list [.atom "setp", k] => do pure (.setParams (← k.nat?))
